@@ -30,7 +30,7 @@ DECIDING = ['bp.util:BundleContainer.create_report', 'bp.agent:Agent._finish_bun
 REQUIRED_OBS = ['combinations', 'reports_expected', 'reports_checked', 'no_report_expected', 'forwards_sent_as_fragments']
 
 NODE = 'dtn://me/'
-OUTCOMES = ['deliver', 'deliver-admin', 'forward', 'forward-frag', 'delete', 'no-route', 'security', 'duplicate']
+OUTCOMES = ['deliver', 'deliver-admin', 'forward', 'forward-frag', 'delete', 'no-route', 'security', 'duplicate', 'forward-fail']
 REQ_BITS = [('received', bpv7.FLAG_REQ_RECEPTION), ('forwarded', bpv7.FLAG_REQ_FORWARDING),
             ('delivered', bpv7.FLAG_REQ_DELIVERY), ('deleted', bpv7.FLAG_REQ_DELETION)]
 OCCURRED = {
@@ -41,11 +41,12 @@ OCCURRED = {
     'delete': {'received', 'deleted'},
     'security': {'received', 'deleted'},
     'no-route': {'received'},
+    'forward-fail': {'received', 'deleted'},   # routed for forwarding, but no transmit route: nothing was forwarded
     'duplicate': set(),
 }
 DEST = {
     'deliver': 'dtn://me/app', 'deliver-admin': NODE, 'forward': 'dtn://fwd/app', 'forward-frag': 'dtn://frag/app',
-    'delete': 'dtn://del/app', 'no-route': 'dtn://nowhere/app', 'security': 'dtn://me/app', 'duplicate': 'dtn://me/app',
+    'delete': 'dtn://del/app', 'no-route': 'dtn://nowhere/app', 'forward-fail': 'dtn://lost/app', 'security': 'dtn://me/app', 'duplicate': 'dtn://me/app',
 }
 
 
@@ -110,9 +111,9 @@ def check_combo(combo, bundle, obs):
     sim = Sim(0, 'eager')
     enc = bpv7.encode(bundle)
     node = bh.BpNode(sim, NODE, rx_routes=[(r'dtn://me/.*', 'deliver'), (r'dtn://fwd/.*', 'forward'), (r'dtn://frag/.*', 'forward'),
-                                           (r'dtn://del/.*', 'delete')],
+                                           (r'dtn://del/.*', 'delete'), (r'dtn://lost/.*', 'forward')],
                      tx_routes=[dict(pattern=r'dtn://frag/.*', mtu=max(120, len(enc) - 150), raw={'r': 'frag'}),
-                                dict(pattern=r'.*', raw={'r': 'any'})])
+                                dict(pattern=r'(?!dtn://lost/).*', raw={'r': 'any'})])
     problems = []
     detail = dict(received=enc.hex()[:400], combo=combo)
     if combo['outcome'] == 'duplicate':
